@@ -45,7 +45,7 @@ def present(value):
     """documented: empty cells / None mean absent, the number zero is a value"""
     if value is None:
         return False
-    if isinstance(value, (int, decimal.Decimal)) and not isinstance(value, bool):
+    if isinstance(value, (int, float, decimal.Decimal)) and not isinstance(value, bool):
         return True
     return bool(value)
 
